@@ -29,6 +29,7 @@ pub const SUITES: &[Suite] = &[
     Suite { name: "C15", gen: real::gen, exec: real::exec },
     Suite { name: "C15xen", gen: nogen, exec: noexec },
     Suite { name: "C15xu", gen: nogen, exec: noexec },
+    Suite { name: "C15xm", gen: nogen, exec: noexec },
     Suite { name: "C15perm", gen: real::gen_perm, exec: real::exec_perm },
 ];
 
